@@ -3,6 +3,7 @@
 from __future__ import annotations
 
 import ast
+import copy
 
 from ..cfg import cfg_of
 from ..model import AnalysisError, call_name, calls_in, dotted, norm, walk_no_nested
@@ -63,6 +64,36 @@ def check_tables(ctx):
     txt = " ".join(norm(s) for s in rules.func_stmts(hook.node))
     ok = "cls._subclasses_by_sml[cls._sml_type.upper()] = cls" in txt and "cls._subclasses_by_hsms[cls._hsms_type] = cls" in txt
     ctx.ob("C14.T1", hook.qualname, ok, "every concrete item class registers under its SML mnemonic and its format code" if ok else "subclass registration by SML type / format code is missing", where=hook.where)
+    # ... for each of the 15 classes: the guards of the two registration stores, folded with that class's constants, hold
+    # (the list item has format code 0 and every class a non-empty mnemonic: a guard on truthiness / sign must not drop one)
+    hcfg = cfg_of(hook.node)
+    stores = {tab: [n for n in hcfg.real_nodes() if isinstance(n.ast, ast.Assign) and norm(n.ast.targets[0]).startswith(f"cls.{tab}[")] for tab in ("_subclasses_by_sml", "_subclasses_by_hsms")}
+    if all(stores.values()):
+        class _Fold(ast.NodeTransformer):
+            def __init__(self, consts):
+                self.consts = consts
+
+            def visit_Attribute(self, node):
+                if isinstance(node.value, ast.Name) and node.value.id == "cls" and node.attr in self.consts:
+                    return ast.copy_location(ast.Constant(value=self.consts[node.attr]), node)
+                return self.generic_visit(node)
+
+        dropped = []
+        for cname in list(ITEM_NUMERIC.values()) + list(ITEM_OTHERS.values()):
+            consts = {a: repo.const(cname, a) for a in ("_sml_type", "_hsms_type") if repo.has_const(cname, a)}
+            for tab, nodes in stores.items():
+                reached = False
+                for n in nodes:
+                    try:
+                        if all(bool(eval(compile(ast.fix_missing_locations(ast.Expression(_Fold(consts).visit(copy.deepcopy(t)))), "<guard>", "eval"), {}, {})) == v  # noqa: S307 - constants only
+                               for t, v in hcfg.dominating_conditions(n)):
+                            reached = True
+                    except Exception as exc:  # a guard that is not a test of the class constants
+                        raise AnalysisError(f"Item.__init_subclass__: registration guard not foldable for {cname} ({type(exc).__name__})")
+                if not reached:
+                    dropped.append(f"{cname} from {tab}")
+        ctx.ob("C14.T1", hook.qualname, not dropped, "the registration guards hold for all 15 item classes" if not dropped else
+               f"the registration guards exclude {dropped}: Item.decode / from_sml cannot find the class for that format code or mnemonic (nested lists no longer decode)", key="registered-all", where=hook.where)
     dec = repo.method("Item", "decode", inherited=False)
     ok = any(norm(s.value) == "cls._subclasses_by_hsms[data_type].decode(data)" for s in rules.func_stmts(dec.node) if isinstance(s, ast.Return)) and any(
         isinstance(s, ast.Raise) for s in rules.func_stmts(dec.node))
